@@ -89,6 +89,16 @@ func c12Pool(r *rand.Rand, n int) []c12Item {
 			return []bexpr.Option{bexpr.WithUnknownValue(1), bexpr.WithTagName("alt"), bexpr.WithHookFn(hookIdentity{}.Real())}
 		}, data: fixed, descr: "unknown+tag+hook+quantifier"},
 	)
+	// exported options that name things the expression never mentions: three
+	// creation-time local variables (on this tree: ignored)
+	pool = append(pool,
+		c12Item{text: `(any l as v { v == 3 }) and (all objs as i, o { o.port != i and (any o.tags as t { t != "u" }) })`, opts: func() []bexpr.Option {
+			return []bexpr.Option{bexpr.WithLocalVariable("unused1", nil, 1), bexpr.WithLocalVariable("unused2", []string{"s"}, nil), bexpr.WithLocalVariable("unused3", nil, "x")}
+		}, data: fixed, descr: "preset-locals+quantifier"},
+		c12Item{text: `any m as k, v { k == "y" and v == 2 }`, opts: func() []bexpr.Option {
+			return []bexpr.Option{bexpr.WithLocalVariable("unused1", nil, 1), bexpr.WithLocalVariable("unused2", nil, 2), bexpr.WithLocalVariable("unused3", nil, 3), bexpr.WithLocalVariable("unused4", nil, 4), bexpr.WithLocalVariable("unused5", nil, 5), bexpr.WithUnknownValue("u")}
+		}, data: fixed, descr: "preset-locals+quantifier"},
+	)
 	// datum-directed random ones
 	for len(pool) < n {
 		doc := univ.GenObj(r, 4, true)
@@ -476,6 +486,106 @@ func c12ManyPatterns(c *mon.Ctx) {
 	c.Count("many_pattern_rounds")
 }
 
+// c12SharedOptionSlice: goroutines create evaluators at once from ONE
+// caller-owned option slice (with nil entries in several positions) spread
+// into the call; the slice must still hold what the caller put there.
+func c12SharedOptionSlice(c *mon.Ctx) {
+	const G = 12
+	tag, unk, hk := bexpr.WithTagName("alt"), bexpr.WithUnknownValue("u"), bexpr.WithHookFn(hookIdentity{}.Real())
+	shared := []bexpr.Option{nil, tag, nil, nil, unk, hk, nil}
+	want := []bool{true, false, true, true, false, false, true}
+	data := make([]interface{}, G)
+	for i := range data {
+		data[i] = c12FixedData.Datum() // built here: the data universe is not meant for concurrent use
+	}
+	var ready, done sync.WaitGroup
+	gate := make(chan struct{})
+	fails := make([]string, G)
+	ready.Add(G)
+	done.Add(G)
+	for gi := 0; gi < G; gi++ {
+		gi := gi
+		go func() {
+			defer done.Done()
+			ready.Done()
+			<-gate
+			ev, err, pan, _ := createEval(`st.altname == go and zz == u`, shared...)
+			if pan != "" || err != nil {
+				fails[gi] = "create: " + fmt.Sprint(err) + pan
+				return
+			}
+			if o := evaluate(ev, data[gi]); o.Class() != "T" {
+				fails[gi] = "st.altname == go and zz == u with [nil, tag alt, nil, nil, unknown u, identity hook, nil]: " + o.String() + " (want T)"
+			}
+		}()
+	}
+	ready.Wait()
+	close(gate)
+	done.Wait()
+	for i, o := range shared {
+		if (o == nil) != want[i] {
+			fails[0] += fmt.Sprintf(" caller's slice changed at position %d", i)
+		}
+	}
+	for _, f := range fails {
+		if f != "" {
+			c.Violation("C12 concurrent-result-differs shared-option-slice", "evaluators created concurrently from one caller-owned option slice (with nil entries) are wrong, or the caller's slice was changed", map[string]any{"failure": f})
+			break
+		}
+	}
+	c.Count("shared_option_slice_rounds")
+}
+
+// c12LongChainShared: one evaluator for a flat chain of 70 000 operands
+// (nothing short-circuits) evaluated by 16 goroutines at once: the depths in
+// flight add up to more than 10^6.
+var c12ChainDone = false
+
+func c12LongChainShared(c *mon.Ctx) {
+	if c12ChainDone {
+		return
+	}
+	c12ChainDone = true
+	n := 70000
+	text := "a != 0" + strings.Repeat(" and a != 0", n-1)
+	ev, err, pan, _ := createEval(text)
+	if pan != "" || err != nil {
+		c.Violation("C12 long-chain create-failed", "a flat chain was rejected", map[string]any{"operands": n, "error": clip(fmt.Sprint(err)+pan, 200)})
+		return
+	}
+	const G = 16
+	datum := map[string]interface{}{"a": 1}
+	var ready, done sync.WaitGroup
+	gate := make(chan struct{})
+	fails := make([]string, G)
+	ready.Add(G)
+	done.Add(G)
+	for gi := 0; gi < G; gi++ {
+		gi := gi
+		go func() {
+			defer done.Done()
+			ready.Done()
+			<-gate
+			for k := 0; k < 6; k++ {
+				if o := evaluate(ev, datum); o.Class() != "T" {
+					fails[gi] = o.String()
+					return
+				}
+			}
+		}()
+	}
+	ready.Wait()
+	close(gate)
+	done.Wait()
+	for _, f := range fails {
+		if f != "" {
+			c.Violation("C12 concurrent-result-differs long-chain", "a 70 000-operand chain evaluated by 16 goroutines at once did not give the sequential result", map[string]any{"observed": clip(f, 300), "want": "(true, nil)"})
+			break
+		}
+	}
+	c.Count("long_chain_shared_rounds")
+}
+
 func c12Run(c *mon.Ctx, idx int) {
 	procs := []int{16, 4, 2}[idx%3]
 	old := runtime.GOMAXPROCS(procs)
@@ -485,6 +595,8 @@ func c12Run(c *mon.Ctx, idx int) {
 	c12FilterArrays(c)
 	c12GrowingLists(c)
 	c12ManyPatterns(c)
+	c12SharedOptionSlice(c)
+	c12LongChainShared(c)
 	r := c.RNG(idx)
 	nEval := tierN(c.Tier, 110, 600)
 	G := tierN(c.Tier, 12, 24)
@@ -658,7 +770,7 @@ func init() {
 		SingleProcess: true,
 		Extra:         map[string]any{"race": true},
 		Required: func(tier string) []string {
-			return []string{"evaluators_shared", "cold_start_concurrent_creations", "shared_filter_over_mixed_container_types", "fresh_type_first_sight_rounds", "growing_list_rounds", "many_pattern_rounds", "evaluator_kind:unknown+quantifier", "evaluator_kind:unknown+hook+quantifier", "concurrent_calls", "overlapping_call_pairs", "evaluators_with_overlapping_first_calls", "race_log_inspected", "evaluator_kind:fixed", "evaluator_kind:random", "evaluator_kind:hook-gosched", "evaluator_kind:unknown", "evaluator_kind:tag"}
+			return []string{"evaluators_shared", "cold_start_concurrent_creations", "shared_filter_over_mixed_container_types", "fresh_type_first_sight_rounds", "growing_list_rounds", "many_pattern_rounds", "shared_option_slice_rounds", "long_chain_shared_rounds", "evaluator_kind:preset-locals+quantifier", "evaluator_kind:unknown+quantifier", "evaluator_kind:unknown+hook+quantifier", "concurrent_calls", "overlapping_call_pairs", "evaluators_with_overlapping_first_calls", "race_log_inspected", "evaluator_kind:fixed", "evaluator_kind:random", "evaluator_kind:hook-gosched", "evaluator_kind:unknown", "evaluator_kind:tag"}
 		},
 		Post: func(a *mon.Agg) {
 			if a.Counters["harness_only_race_blocks"] > 0 {
